@@ -230,3 +230,32 @@ def main():
 
 if __name__ == '__main__':
     main()
+
+
+def run_atheris(ctx, pid, runs, timeout=3000):
+    """thorough tier: coverage-guided campaign in a child process (libFuzzer takes the process over)"""
+    import subprocess, tempfile, shutil
+    outdir = tempfile.mkdtemp(prefix='atheris-', dir=os.environ.get('VERIF_RUNDIR') or None)
+    env = dict(os.environ)
+    env['PYTHONPATH'] = VERIF + os.pathsep + os.path.join(VERIF, '.deps') + os.pathsep + env.get('PYTHONPATH', '')
+    try:
+        p = subprocess.run([sys.executable, '-m', 'vlib.atheris_target', pid, str(runs), str(ctx.seed), outdir],
+                           cwd=VERIF, env=env, capture_output=True, text=True, timeout=timeout)
+    except subprocess.TimeoutExpired:
+        ctx.note('atheris campaign hit its wall-clock budget: inconclusive beyond what stats.json reports')
+        p = None
+    stats_p = os.path.join(outdir, 'stats.json')
+    viol_p = os.path.join(outdir, 'violation.json')
+    if os.path.exists(stats_p):
+        st = json.load(open(stats_p))
+        ctx.evaluations += st['execs']
+        ctx.nontrivial_disjoint += st['distinct_nontrivial']
+        ctx.extra['atheris_execs'] = st['execs']
+        for k, v in st.get('classes', {}).items():
+            ctx.classes['atheris-' + k] += v
+    elif p is not None:
+        ctx.note('atheris could not run (%s); the Hypothesis campaigns are the engine of record' % (p.stderr or p.stdout)[-300:].strip().replace('\n', ' | '))
+    if os.path.exists(viol_p):
+        v = json.load(open(viol_p))
+        ctx.record(Violation(v['sig'], v['msg'], v['case']), 'bytes')
+    shutil.rmtree(outdir, ignore_errors=True)
